@@ -147,20 +147,24 @@ def random_conv(cp, rng, n, events):
 
 
 def roundtrips(cp, ctx, events, all_pairs_nobox):
+    full = not ctx.quick()
     for box in (True, False):
         c = cp.obj[box]
         for sub in ((False, True) if cp.subst else (False,)):
+            # quick: the lead/trail pairs and the full repertoire once (box protection on, no substitutes); the other
+            # settings see every single byte and the clusters the setting changes; thorough: everything in every setting
+            exhaustive = full or (box and not sub)
             seqs = [bytes([b]) for b in range(256)]
-            if box or all_pairs_nobox:
+            if exhaustive:
                 seqs += [bytes([l, t]) for l in cp.leads for t in cp.trails]
             for q in seqs:
                 u = c.bytes_to_unicode(q, use_substitutes=sub)
                 r = c.unicode_to_bytes(u)
                 events.append({'o': 'b', 'c': cp.idx, 'box': box, 'sub': sub, 'q': list(q), 'u': cps(u), 'r': list(r)})
-            if not (box or all_pairs_nobox):
-                continue
             rep = cp.repertoire(sub)
             for un, w in rep.items():
+                if not exhaustive and len(w) > 1:
+                    continue
                 r = c.unicode_to_bytes(un)
                 v = c.bytes_to_unicode(r, use_substitutes=sub)
                 events.append({'o': 'u', 'c': cp.idx, 'box': box, 'sub': sub, 'u': cps(un), 'un': cps(un), 'w': list(w),
@@ -181,16 +185,16 @@ def run(ctx):
                        'of lead/trail pairs the codepage does not define')
     # 1. design: unbounded step law on the large class alphabet, bounded history model with every chunking
     # (ctx.tlc, not ctx.model_check: TLC's -coverage option makes the recursive converter operators ~100x slower)
+    mc_results = []
+
+    def model_checks():
+        for cfg, workers in (('Codepage_MC_step.cfg', 2), (ctx.pick('Codepage_MC.cfg', 'Codepage_MC_big.cfg'), ctx.pick(2, 8))):
+            mc_results.append((cfg, ctx.tlc('Codepage_MC', cfg, workers=workers, tag='model check')))
+    mc_thread = None
     if not os.environ.get('VERIF_C41_SKIP_MC'):       # development aid for mutant runs: the models do not depend on the code
-        for cfg, workers in (('Codepage_MC_step.cfg', 4), (ctx.pick('Codepage_MC.cfg', 'Codepage_MC_big.cfg'), ctx.pick(4, 8))):
-            r = ctx.tlc('Codepage_MC', cfg, workers=workers, tag='model check')
-            ctx.cov['states'] += r['distinct']
-            ctx.cov['transitions'] += r['generated']
-            if not r['ok']:
-                ctx.reject('TLC model check of Codepage_MC (%s) failed: %s' % (cfg, r['error']),
-                           key={'clause': 'model_check', 'cfg': cfg}, data=r['out'][-4000:])
-            elif r['distinct'] < 1000:
-                raise core.MachineryError('vacuous model check %s: %d states' % (cfg, r['distinct']))
+        import threading
+        mc_thread = threading.Thread(target=model_checks)      # runs while the implementation is driven
+        mc_thread.start()
     # 2. the shipped codepages (relation read from the data files) and the synthetic class codepages
     from pcbasic.data import read_codepage
     from pcbasic.data.codepages import CODEPAGES
@@ -199,6 +203,9 @@ def run(ctx):
     if sorted(CODEPAGES) != names or len(names) < 40:
         raise core.MachineryError('codepage list of the package %r differs from the data directory %r' % (sorted(CODEPAGES), names))
     cplist = []
+    only = os.environ.get('VERIF_C41_ONLY')         # development aid (mutant runs): restrict the shipped codepages
+    if only:
+        names = [n for n in names if n in only.split(',')]
     for nm in names:
         rel, raw = parse_ucp(os.path.join(cpdir, nm + '.ucp'))
         cplist.append(CP(0, nm, rel, raw, read_codepage(nm)))
@@ -230,7 +237,7 @@ def run(ctx):
                     cuts = sorted(rng.randint(0, ln) for _ in range(rng.choice([1, 2, ln])))
                     ev.append(conv_event(cp, rng, data, cuts, (0x0D,), rng.random() < 0.8, False))
         if big:
-            step = 60000
+            step = 40000
             for i in range(0, len(ev), step):
                 batches.append(('%s.%d' % (cp.name, i // step), [table(cp.rel)], ev[i:i + step], cp))
         else:
@@ -246,8 +253,20 @@ def run(ctx):
         return b, ctx.validate('Codepage_Trace', evs, header={'cps': tabs}, name='cp_' + name)
 
     batches.sort(key=lambda b: -len(b[2]))
-    with ThreadPoolExecutor(max_workers=ctx.pick(6, 8)) as ex:
+    with ThreadPoolExecutor(max_workers=ctx.pick(7, 8)) as ex:
         results = list(ex.map(judge, batches))
+    if mc_thread:
+        mc_thread.join()
+        for cfg, r in mc_results:
+            ctx.cov['states'] += r['distinct']
+            ctx.cov['transitions'] += r['generated']
+            if not r['ok']:
+                ctx.reject('TLC model check of Codepage_MC (%s) failed: %s' % (cfg, r['error']),
+                           key={'clause': 'model_check', 'cfg': cfg}, data=r['out'][-4000:])
+            elif r['distinct'] < 1000:
+                raise core.MachineryError('vacuous model check %s: %d states' % (cfg, r['distinct']))
+        if len(mc_results) != 2:
+            raise core.MachineryError('model check thread failed')
     kinds = {'b': 0, 'u': 0, 'c': 0}
     for (name, tabs, ev, cp1), verdicts in results:
         pairs = [(e, cp1) for e in ev] if cp1 else ev
@@ -276,7 +295,7 @@ def run(ctx):
         if cp1:
             ctx.sample(dict(ev[300], codepage=cp1.name))
             ctx.sample(dict(ev[-1], codepage=cp1.name))
-    if kinds['c'] == 0 or kinds['u'] < 10000 or kinds['b'] < 100000:
+    if not only and (kinds['c'] == 0 or kinds['u'] < 10000 or kinds['b'] < 100000):
         raise core.MachineryError('vacuous: too few events %r' % kinds)
     ctx.assumptions += ['clusters are compared in NFC form (unicodedata.normalize), as the code stores them',
                         'the relation of a codepage is the harness\'s own reading of the shipped .ucp file',
